@@ -38,6 +38,10 @@ type Case struct {
 	KMid int      `json:"kmid,omitempty"`
 	// Text > 0: another family of statement texts (the checksums recorded per statement depend on it).
 	Text int `json:"text,omitempty"`
+	// ReadFault > 0: the k-th single-revision look-up of the run under test fails transiently
+	// (the listing used to compute the pending files works): whatever the edit, the run must fail,
+	// execute nothing and leave the history as it was.
+	ReadFault int `json:"read_fault,omitempty"`
 }
 
 func init() {
@@ -155,6 +159,7 @@ func one(cs Case) (why, key string, trace []string) {
 	}
 	write(dir, cs, cs.Out)
 	w.ExecN, w.WriteN, w.FailExec, w.FailWrite, w.FailWriteIf = 0, 0, 0, 0, nil
+	w.ReadN, w.FailRead = 0, cs.ReadFault
 	start := len(w.Log)
 	var rerr error
 	defer func() { trace = world.EvStrings(w.Log[start:]) }()
@@ -173,6 +178,21 @@ func one(cs Case) (why, key string, trace []string) {
 		if x.Kind == "X" {
 			execs = append(execs, x.Stmt)
 		}
+	}
+	if cs.ReadFault > 0 {
+		if w.ReadN < cs.ReadFault {
+			return "", "read-fault-not-reached", nil
+		}
+		if len(execs) != 0 {
+			return fmt.Sprintf("look-up of the stored revision failed, but the run executed %v (err=%v)", execs, rerr), "read-fault|executed", nil
+		}
+		if after := world.SemRev(w.Revs[ver]); after != before {
+			return fmt.Sprintf("look-up of the stored revision failed: history altered %s -> %s (err=%v)", before, after, rerr), "read-fault|history-altered", nil
+		}
+		if rerr == nil {
+			return "look-up of the stored revision failed but the run reports success", "read-fault|no-error", nil
+		}
+		return "", "", nil
 	}
 	prefixSame := len(cs.Out) >= k && strings.Join(cs.Out[:k], "\x00") == strings.Join(o[:k], "\x00")
 	editKind := cs.Edit
@@ -323,6 +343,28 @@ func run(c *rt.Ctx) {
 			}
 		}
 	}
+	// transient failure of the stored revision's look-up in the run under test
+	for n := 1; n <= 3; n++ {
+		o := orig(n)
+		for k := 1; k <= n; k++ {
+			if k == n && n > 1 {
+				continue
+			}
+			outs := map[string][]string{"none": o, "append": append(append([]string(nil), o...), "A1;"), "truncate@0": {}}
+			ch := append([]string(nil), o...)
+			ch[0] = "SELECT 'c1  x';"
+			outs["change@0"] = ch
+			for _, name := range []string{"none", "append", "change@0", "truncate@0"} {
+				for rf := 1; rf <= 2; rf++ {
+					for _, extra := range []int{0, 1} {
+						if k < n {
+							cases = append(cases, Case{N: n, K: k, Edit: "readfault:" + name, Out: outs[name], Style: "nl", Extra: extra, ReadFault: rf})
+						}
+					}
+				}
+			}
+		}
+	}
 	// many statement texts: the per-statement checksums recorded for the applied part depend on them
 	texts := 200
 	if !c.Quick() {
@@ -373,6 +415,13 @@ func run(c *rt.Ctx) {
 		}
 		if cs.Crash {
 			c.Count("setup:crash-state(no error text)", 1)
+		}
+		if why == "" && key == "read-fault-not-reached" {
+			c.Count("read-fault:not-reached(no observation)", 1)
+			return
+		}
+		if cs.ReadFault > 0 {
+			c.Count("read-fault:fired", 1)
 		}
 		if why != "" && key == "setup" {
 			// the partial state could not be produced as planned: no observation about C12 (how
